@@ -18,6 +18,7 @@ structure HOk (fx : Fix) (h : Handler) : Prop where
   l9 : h.pump = .done → h.innerClosed = true
   l10 : (h.hc = .off ↔ h.loop = .off) ∧ ((h.hc = .off ∨ h.hc = .sel) → h.subCloseCalls = 0) ∧ h.subCloseCalls ≤ 1
   l11 : h.started = true → h.pump ≠ .off
+  l12 : h.started = true → h.startedCh = true
 
 /-- the handler RunHandlers is working on (sub-step `st`) -/
 structure CurOk (fx : Fix) (st : Nat) (h : Handler) : Prop where
@@ -74,7 +75,7 @@ macro "h_tac" : tactic => `(tactic|
      | (refine life_updH _ _ _ _ _ h rfl rfl ?_ ?_ ?_
         · intro x hx hok
           simp_all
-          obtain ⟨l1, l2, l3, l5, l6, l7, l8, l9, l10, l11⟩ := hok
+          obtain ⟨l1, l2, l3, l5, l6, l7, l8, l9, l10, l11, l12⟩ := hok
           constructor <;> simp_all
         · intro st x hx hok
           simp_all
@@ -106,7 +107,7 @@ theorem life_rhSub (fx : Fix) (s : St) (i : Nat) (s' : St) (h : LifeOk fx s)
       · apply forall_mem_modify _ _ _ _ a
         intro y hy hok
         rw [hx] at hy; cases hy
-        obtain ⟨l1, l2, l3, l5, l6, l7, l8, l9, l10, l11⟩ := hok
+        obtain ⟨l1, l2, l3, l5, l6, l7, l8, l9, l10, l11, l12⟩ := hok
         constructor <;> simp_all
       · intro v' j st hh y hy
         simp at hh
@@ -136,7 +137,7 @@ theorem life_rhStep (fx : Fix) (s : St)  (s' : St) (h : LifeOk fx s)
     · apply forall_mem_modify _ _ _ _ a
       intro y hy hok
       have hc := c v i 0 hhl y hy
-      obtain ⟨l1, l2, l3, l5, l6, l7, l8, l9, l10, l11⟩ := hok
+      obtain ⟨l1, l2, l3, l5, l6, l7, l8, l9, l10, l11, l12⟩ := hok
       obtain ⟨c0, c1, c2, c3, c4⟩ := hc
       cases h7 : fx.d7 <;> (constructor <;> simp_all [markStop, markStarted])
     · intro v' j st hh y hy
@@ -159,7 +160,7 @@ theorem life_rhStep (fx : Fix) (s : St)  (s' : St) (h : LifeOk fx s)
     · apply forall_mem_modify _ _ _ _ a
       intro y hy hok
       have hc := c v i 1 hhl y hy
-      obtain ⟨l1, l2, l3, l5, l6, l7, l8, l9, l10, l11⟩ := hok
+      obtain ⟨l1, l2, l3, l5, l6, l7, l8, l9, l10, l11, l12⟩ := hok
       obtain ⟨c0, c1, c2, c3, c4⟩ := hc
       cases h7 : fx.d7 <;> (constructor <;> simp_all [markStop, markStarted])
     · intro v' j st hh y hy
@@ -189,7 +190,7 @@ theorem life_rhSpawn (fx : Fix) (s : St)  (s' : St) (h : LifeOk fx s)
     · apply forall_mem_modify _ _ _ _ a
       intro y hy hok
       have hc := c v i 2 hhl y hy
-      obtain ⟨l1, l2, l3, l5, l6, l7, l8, l9, l10, l11⟩ := hok
+      obtain ⟨l1, l2, l3, l5, l6, l7, l8, l9, l10, l11, l12⟩ := hok
       obtain ⟨c0, c1, c2, c3, c4⟩ := hc
       constructor <;> simp_all
     · intro j y hy hp
@@ -327,6 +328,19 @@ theorem life_step (fx : Fix) (s : St) (a : Action) (s' : St) (hctl : CtlOk s) (h
         refine ⟨a, by intro v i st hh; simp [setC] at hh, ?_⟩
         intro i x hx hp
         rcases sb i x hx hp with h1 | ⟨v, st, h1⟩
+        · exact Or.inl h1
+        · rw [hhl] at h1; cases h1
+      · simp at ha
+    · simp at ha
+  case rhSubFail i =>
+    split at ha
+    · rename_i v x hhl hx
+      split at ha
+      · simp at ha; subst ha
+        obtain ⟨a, c, sb⟩ := h
+        refine ⟨a, by intro v i st hh; simp at hh, ?_⟩
+        intro j y hy hp
+        rcases sb j y hy hp with h1 | ⟨v', st, h1⟩
         · exact Or.inl h1
         · rw [hhl] at h1; cases h1
       · simp at ha
